@@ -153,6 +153,26 @@ pub fn silent_items(seed: u64) -> Vec<(String, String)> {
         for w in v.linking.iter().chain(v.fillers.iter()) {
             add(format!("{} {} {}", v.classes[0][0], w, v.classes[0][1]));
         }
+        // adjacent pairs of numbers in several spelling styles (exercises the refusal / overlap branches that
+        // no single valid number reaches)
+        {
+            let ns = [5u64, 14, 20, 21, 100, 1000, 14_000, 200_000, 1_000_000, 21_000_000];
+            let styles: [&[u8]; 4] = [&[], &[128, 255, 255, 255, 255, 255, 255, 255], &[64, 200, 30, 250, 0, 255, 90, 17], &[255, 0, 255, 0, 255, 0, 255, 0]];
+            let mut phrases: Vec<String> = vec![];
+            for n in ns {
+                for st in styles {
+                    let p = spell::cardinal(l, n, &mut Bytes::new(st)).join(" ");
+                    if !phrases.contains(&p) {
+                        phrases.push(p);
+                    }
+                }
+            }
+            for a in &phrases {
+                for b in &phrases {
+                    add(format!("{} {}", a, b));
+                }
+            }
+        }
         // numerals beyond 2^53 (not exactly representable as f64), built from the largest scale words
         let top: &[&str] = match l { "de" => &["millionen", "billion"], "it" => &["milioni", "bilioni"], "nl" => &["miljoen", "biljoen"], "pt" => &["milhões", "biliões"], "en" => &["million", "billion"], "fr" => &["millions", "milliard"], _ => &["mil", "millones"] };
         for head in [2u64, 10, 12, 19, 123, 999] {
